@@ -260,6 +260,48 @@ pub fn check(ctx: &Ctx, hc: &HCase, obs: &mut Obs, replaying: bool) -> CheckResu
             return Err(Fail::new("query_changed_base_facts", format!("relation {rel} changed from {rows:?} to {:?} after executing\n{base_text}", after.get(rel))));
         }
     }
+    // (d) the same rules asked with different bound constants, one after the other on ONE engine (what a
+    // session does): `?p(0, Y)`, `?p(1, Y)`, ... in the handler's query form, each compared with a fresh engine
+    {
+        use crate::common::prog::{Atom, Lit, HT, T};
+        let idb: Vec<(String, usize)> = case.prog.clauses[..case.prog.clauses.len() - 1]
+            .iter()
+            .map(|c| c.head.clone())
+            .collect::<BTreeSet<_>>()
+            .into_iter()
+            .filter_map(|h| case.arity.get(&h).map(|a| (h, *a)))
+            .filter(|(_, a)| *a >= 2)
+            .take(2)
+            .collect();
+        let mut e2 = IQLEngine::with_config(opt_config(OPT_DEFAULT));
+        load_edb(&mut e2, case);
+        for (rel, ar) in &idb {
+            for cst in [0i64, 1, 2, 0] {
+                let mut v = case.clone();
+                let k = v.prog.clauses.len() - 1;
+                let args: Vec<T> = std::iter::once(T::C(cst)).chain((1..*ar).map(|i| T::V(i as u8))).collect();
+                v.prog.clauses[k] = Clause { head: "q".into(), hargs: (1..*ar).map(|i| HT::V(i as u8)).collect(), body: vec![Lit::Pos(Atom { rel: rel.clone(), args })] };
+                v.arity.insert("q".into(), ar - 1);
+                let text = crate::common::gen::handler_style_text(&v);
+                let (Ok(expect), Ok(o)) = (fresh(&v, &text), run_on(&mut e2, &text)) else {
+                    obs.discard = Some("watchdog".into());
+                    return Ok(());
+                };
+                obs.class("bound_query_sequence_on_one_engine");
+                if o != expect {
+                    return Err(Fail::new(
+                        "engine_history_changes_answer",
+                        format!(
+                            "program:\n{text}\nfresh engine -> {}\nengine that answered the same rules with other constants before -> {}\nedb: {:?}",
+                            crate::common::runner::truncate(&format!("{expect:?}"), 400),
+                            crate::common::runner::truncate(&format!("{o:?}"), 400),
+                            case.edb
+                        ),
+                    ));
+                }
+            }
+        }
+    }
     obs.nontrivial = nontrivial;
     Ok(())
 }
